@@ -476,6 +476,12 @@ def prepare (E : Env) (P : Parser) : Parser :=
   -- the active chain is decided by this argument vector alone (after the D26 fix)
   { P with cmds := P.cmds.map fun c => { c with active := none } }
 
+/-- what `ParseArgs` does before it branches into completion mode: `prepare` without the reset of the
+    active chain (which comes behind that branch: a completion leaves `Active` as an earlier call left it) -/
+def preamble (E : Env) (P : Parser) : Parser :=
+  let P := P.allORefs.foldl (fun P r => P.modOpt r fun o => updateDefaultLiteral E { o with clearRef := true }) P
+  if P.opts.helpFlag then P.addHelpGroups else P
+
 /-- the argument loop followed — when it raised no error — by defaults and the required check -/
 def parsePhase (E : Env) (help : HelpFn) (P : Parser) (argv : List Bytes) : PS :=
   let s := parseLoop E help (4 * argv.length + 16) (({ P := P, args := argv } : PS).fill 0)
